@@ -4,8 +4,8 @@ use oxmpl::base::{
     goal::{Goal, GoalRegion, GoalSampleableRegion},
     planner::{Planner, PlannerConfig},
     problem_definition::ProblemDefinition,
-    space::{RealVectorStateSpace, SO2StateSpace, StateSpace},
-    state::{RealVectorState, SO2State},
+    space::{RealVectorStateSpace, SO2StateSpace, SO3StateSpace, StateSpace},
+    state::{RealVectorState, SO2State, SO3State},
     validity::StateValidityChecker,
 };
 use oxmpl::geometric::{RRT, RRTConnect, RRTStar, PRM};
@@ -27,6 +27,16 @@ impl GoalSampleableRegion<RealVectorState> for CircGoal {
         let angle = rng.random_range(0.0..2.0 * PI);
         let radius = self.radius * rng.random::<f64>().sqrt();
         Ok(RealVectorState { values: vec![self.target.values[0] + radius * angle.cos(), self.target.values[1] + radius * angle.sin()] })
+    }
+}
+struct AnyAngle;
+impl StateValidityChecker<SO2State> for AnyAngle { fn is_valid(&self, _s: &SO2State) -> bool { true } }
+struct AngleGoal { target: f64, tol: f64 }
+impl Goal<SO2State> for AngleGoal { fn is_satisfied(&self, s: &SO2State) -> bool { (s.value - self.target).abs() <= self.tol } }
+impl GoalRegion<SO2State> for AngleGoal { fn distance_goal(&self, s: &SO2State) -> f64 { ((s.value - self.target).abs() - self.tol).max(0.0) } }
+impl GoalSampleableRegion<SO2State> for AngleGoal {
+    fn sample_goal(&self, rng: &mut impl Rng) -> Result<SO2State, StateSamplingError> {
+        Ok(SO2State { value: self.target + self.tol * (rng.random::<f64>() - 0.5) })
     }
 }
 fn mk(start: (f64, f64)) -> (Arc<RealVectorStateSpace>, Arc<ProblemDefinition<RealVectorState, RealVectorStateSpace, CircGoal>>) {
@@ -168,6 +178,41 @@ fn main() {
                     sp.enforce_bounds(&mut s);
                     println!("bounds ({}, {}) value {} -> enforced {} satisfies={}", lo, hi, v, s.value, sp.satisfies_bounds(&s));
                 }
+            }
+        }
+        "c04_so2" => {
+            // bounds (-3, 3): start and goal in bounds, on either side of the excluded seam region |angle| > 3.
+            // The planners never consult the bounds and interpolation takes the short arc through +-pi.
+            let space = Arc::new(SO2StateSpace::new(Some((-3.0, 3.0))).unwrap());
+            let goal = Arc::new(AngleGoal { target: 2.9, tol: 0.05 });
+            let pd = Arc::new(ProblemDefinition { space: space.clone(), start_states: vec![SO2State { value: -2.9 }], goal });
+            let mut mid = SO2State { value: 0.0 };
+            space.interpolate(&SO2State { value: -2.9 }, &SO2State { value: 2.9 }, 0.5, &mut mid);
+            println!("interpolate(-2.9, 2.9, 0.5) = {} satisfies_bounds={}", mid.value, space.satisfies_bounds(&mid));
+            for seed in 0..5u64 {
+                let mut p = RRT::new(0.05, 0.2, &PlannerConfig { seed: Some(seed) });
+                p.setup(pd.clone(), Arc::new(AnyAngle));
+                match p.solve(Duration::from_secs(5)) {
+                    Ok(path) => {
+                        let out: Vec<f64> = path.0.iter().filter(|s| !space.satisfies_bounds(s)).map(|s| s.value).collect();
+                        println!("RRT seed {}: {} states, {} outside the bounds, e.g. {:?}", seed, path.0.len(), out.len(), out.first());
+                    }
+                    Err(e) => println!("RRT seed {}: Err {:?}", seed, e),
+                }
+            }
+        }
+        "c04_so3" => {
+            // cone of radius 2.0 rad around the identity: rotations by +1.9 and -1.9 rad about z are both inside, the
+            // geodesic between them runs through the rotation by pi about z, which is outside
+            let space = SO3StateSpace::new(Some((SO3State::identity(), 2.0))).unwrap();
+            let q = |a: f64| SO3State { x: 0.0, y: 0.0, z: (a / 2.0).sin(), w: (a / 2.0).cos() };
+            let (a, b) = (q(1.9), q(-1.9));
+            println!("a in bounds={} b in bounds={}", space.satisfies_bounds(&a), space.satisfies_bounds(&b));
+            for t in [0.25, 0.5, 0.75] {
+                let mut m = SO3State::identity();
+                space.interpolate(&a, &b, t, &mut m);
+                println!("interpolate(a, b, {}) = ({:.3}, {:.3}, {:.3}, {:.3}) distance to centre {:.3} satisfies_bounds={}", t, m.x, m.y, m.z, m.w,
+                         space.distance(&SO3State::identity(), &m), space.satisfies_bounds(&m));
             }
         }
         "c12_so2" => {
